@@ -1313,8 +1313,8 @@ class GridBase(metaclass=ABCMeta):
                 # use stored value for the default case of integrating over all axes
                 if isinstance(axes, int):
                     axes = (axes,)
-                else:
-                    axes = tuple(axes)  # required for numpy.sum
+                # support negative indices, which count from the last axis
+                axes = tuple(ax + self.num_axes if ax < 0 else ax for ax in axes)
                 volume_list = [
                     cell_vol if ax in axes else 1
                     for ax, cell_vol in enumerate(self.cell_volume_data)
